@@ -23,8 +23,23 @@ Clauses (signature prefix):
                 endpoint announced in the CONNECT / CC that set the connection up (read off the air)
   dlc/...       send() on a data link connection refuses a message that is within the MIU the peer endpoint announced
   lto/...       a side's own silence between receiving a PDU and sending the next one, measured on the logical clock
-                (only nfcpy's own sleeps and time-outs advance it), stays within the link time-out it announced
+                (only nfcpy's own sleeps and time-outs advance it), stays within the link time-out it announced;
+                behavioural half (cells with "mute"): after some idle turns every frame of one side is dropped; a side
+                that hears nothing gives up no earlier than the LTO its peer announced (an initiator: min(LTO, RWT
+                announced by the target), the NFC-DEP recovery may end the link) and no later than LTO + 100 ms, all on
+                the logical clock, read at the driver boundary (MuteProbe, evaluate_mute)
+  dep/rwt...    Initiator.rwt is the waiting time of the WT the target put into ATR_RES (TO byte); air/atn-before-...:
+                no attention request leaves the initiator before that time has passed since its previous request
+  activate/...  ATR_REQ and ATR_RES were exchanged for a valid option pair and still one side never reached on-connect
+                (unless the target was slower than the RWT it announced itself: counted, explained)
   traffic/...   an exception escapes connect() while the link is used within the announced limits
+Cell kinds: "pair" two nfcpy stacks with all the traffic below; "mute" two nfcpy stacks, UI traffic, then one side
+falls silent; "scripted" one nfcpy stack against ScriptedPeer, a small station that is not nfcpy (scripted ATR / PAX
+bytes: TLV order, reserved bits, unknown and missing TLVs, WT up to 15, link found at 106A / 212F / 424F, PSL or not,
+DID), UI PDUs of exactly the MIU in both directions.  Roles: given on both devices, on the initiator only, on neither
+(the harness lets the device labelled "t" bind first so that it becomes the target).  A device may leave groups of
+options to their defaults ("omit"); the announce clause then expects the documented default (not judged for 'miu',
+documented as 128 but 248 in LogicalLinkController, and for the undocumented 'lsc').
 Traffic after activation (all PDU kinds whose size nfcpy budgets itself), every cell:
   UI    each side sends UI PDUs of exactly the MIU the peer announced, one byte more (must be refused locally), one to
         seven bytes less, bursts of small ones (aggregation) and one group of small ones queued at once whose
@@ -60,39 +75,67 @@ from vf.ref import llcp_ref as ref
 
 ID = "C19"
 LEVEL = "exploration"
-RULE = ("a case is one link activation between two real stacks with one option tuple (thread order, target role "
-        "'target'/alternating, brs, lri, lrt, rwt, acm, and per device miu, lto, agf, lsc, SNEP service bound or not; "
-        "the options a role ignores are set too); quick: a pairwise-covering array over all 18 parameters + the "
-        "brs x lri x lrt x order factorial + random tuples + DID/NAD cells through llc.activate(); thorough: the "
-        "complete grid order x brs x lri x lrt x rwt x miu_i x miu_t (51840 cells) with the other parameters "
-        "rotated; distinct by option tuple, non-trivial if both sides reached on-connect and the air monitor "
-        "compared frames against the announced limits; every cell also carries the extra traffic derived "
-        "deterministically from its option tuple: a near-MIU batch of concurrent resolve() calls per side, one data "
-        "link connection with I PDUs at the connection MIU in both directions, a near-MIU aggregation group")
+RULE = ("a case is one link activation with one option tuple (thread order, roles given on both / one / neither "
+        "device, brs, lri, lrt, rwt, and per device miu, lto, agf, lsc, SNEP service bound or not, groups of options "
+        "left to their defaults; the options a role ignores are set too); three kinds: pair (two real stacks), mute "
+        "(two real stacks, one side falls silent after idle turns: every lto_i x lto_t pair), scripted (one real "
+        "stack against a scripted non-nfcpy peer in either role: ATR / PAX byte variants); quick: a "
+        "pairwise-covering array over all 19 parameters + the brs x lri x lrt x order factorial + all rwt, MIU "
+        "pairs, LSC pairs + random tuples + DID/NAD cells through llc.activate(); thorough: the complete grid "
+        "order x brs x lri x lrt x rwt x miu_i x miu_t (51840 cells, DID/NAD on every 61st) with the other "
+        "parameters rotated by a hash of the index (never reported as exhaustive: the full product has ~10^8 "
+        "cells) + dense mute and scripted sets; distinct by option tuple; non-trivial only if both sides reached "
+        "on-connect, every planned UI PDU got through including one of exactly the peer's MIU, and (pair) the data "
+        "link connection delivered what was sent including I PDUs of exactly the connection MIU both ways; every "
+        "pair cell also carries the extra traffic derived deterministically from its option tuple: a near-MIU "
+        "batch of concurrent resolve() calls per side, one data link connection, a near-MIU aggregation group")
 ASSUMPTIONS = ["vf.sim.fakenet delivers datagrams unchanged and in order; its logical clock only advances when every "
                "stack thread is blocked, so no protocol time-out fires because of scheduling",
                "the air decoder (ISO/IEC 18092 NFC-DEP frame formats, LR table 64/128/192/254 counting CMD0..payload) "
                "and vf.ref.llcp_ref (LLCP 1.3 TLVs) are faithful readings of the specifications",
                "nfcpy attribute names llc.cfg['send-miu','recv-lto','send-wks','send-lsc'], mac.miu, mac.target.brty "
                "are read through one adapter; a missing name makes the cell inconclusive",
-               "both devices are nfcpy; 'role' varies which device/thread initiates and whether the target alternates"]
+               "pair / mute cells: both devices are nfcpy; scripted cells: the peer is ScriptedPeer (this module), "
+               "whose own frames are judged too - if it broke a limit itself the cell is inconclusive",
+               "the moment a side stops waiting for a silent peer is the logical time of its thread's first driver "
+               "operation (sendto / select) that starts later than its last DEP frame went out; the margin of 100 ms "
+               "above the peer's LTO is the check's choice (nfcpy uses 10 ms), the lower bound has no margin",
+               "WT = 15 in ATR_RES is reserved: the RWT nfcpy derives from it is recorded, not judged"]
 REQUIRED = ["cells_both_connected", "takeover_checks", "dep_frames_checked", "llc_pdus_checked",
             "oversize_sendto_refused", "psl_exchanges_seen", "frames_of_exactly_lr", "ui_of_exactly_miu",
             "snl_frames_checked", "sdreq_batches_near_miu", "sdreq_batches_just_above_room", "snl_of_exactly_miu",
             "i_pdus_checked", "i_of_exactly_conn_miu", "oversize_send_refused", "connect_cc_pairs_seen",
-            "agf_frames_checked", "agf_within_4_of_miu"]
+            "agf_frames_checked", "agf_within_4_of_miu",
+            # added with the audit of the check
+            "cells_nontrivial_traffic_complete", "cells_dlc_rcvd_equals_sent", "cells_dlc_exact_miu_both_ways",
+            "lto_gaps_measured", "psl_fsl_checked", "rwt_equals_announced_wt",
+            "takeover_miu_differs_from_own", "takeover_lto_differs_from_own", "takeover_lsc_differs_from_own",
+            "takeover_wks_differs_from_own", "devices_with_omitted_options", "cells_role_given_on_neither_device",
+            "cells_did_nad", "cells_mute", "lto_release_measured_initiator", "lto_release_measured_target",
+            "lto_release_lower_bound_is_the_lto", "lto_release_seen_at_driver",
+            "cells_scripted", "scripted_target_cells", "scripted_initiator_cells",
+            "scripted_ui_of_exactly_miu_received"]
 
 CHECK_LTO_GUARANTEE = True      # clause lto/...
 
 LR = (64, 128, 192, 254)
 BRTY = ("106A", "212F", "424F")
 MIUS = [128, 129, 247, 248, 1000, 2175]
-LTOS = [10, 100, 500, 2550]
-PARAMS = [("swap", [0, 1]), ("alt", [False, True]), ("brs", [0, 1, 2]), ("lri", [0, 1, 2, 3]), ("lrt", [0, 1, 2, 3]),
-          ("rwt", list(range(15))), ("acm", [None, False, True]),
+LTOS = [10, 20, 100, 500, 1000, 2550]       # the LTO TLV counts units of 10 ms; 100 is the value of an absent TLV
+# options a device does not pass at all.  DEFAULTS are only used by the harness to plan traffic; the announce clause
+# judges an omitted option against the default the documentation of ContactlessFrontend.connect() states (DOCUMENTED);
+# 'miu' (documented 128, LogicalLinkController uses 248) and 'lsc' (not documented) are not judged when omitted
+DEFAULTS = {"brs": 2, "lri": 3, "lrt": 3, "rwt": 8, "miu": 248, "lto": 500, "lsc": 3, "agf": True}
+DOCUMENTED = ("brs", "lri", "lrt", "rwt", "lto", "agf")
+OMIT_SETS = {"": (), "dep": ("brs", "lri", "lrt", "rwt"), "llc": ("miu", "lto", "lsc", "agf"),
+             "all": ("brs", "lri", "lrt", "rwt", "miu", "lto", "lsc", "agf")}
+# roles: "it" initiator / target, "i-" initiator / role not given (alternates), "--" role given on neither device
+PARAMS = [("swap", [0, 1]), ("roles", ["it", "i-", "--"]), ("brs", [0, 1, 2]), ("lri", [0, 1, 2, 3]),
+          ("lrt", [0, 1, 2, 3]), ("rwt", list(range(15))),
           ("miu_i", MIUS), ("miu_t", MIUS), ("lto_i", LTOS), ("lto_t", LTOS), ("agf_i", [True, False]),
           ("agf_t", [True, False]), ("lsc_i", [0, 1, 2, 3]), ("lsc_t", [0, 1, 2, 3]), ("snep_i", [False, True]),
-          ("snep_t", [False, True]), ("tseed", [0, 1, 2])]
+          ("snep_t", [False, True]), ("omit_i", ["", "dep", "llc", "all"]),
+          ("omit_t", ["", "dep", "llc", "all"]), ("tseed", [0, 1, 2])]
 PNAMES = [p for p, _ in PARAMS]
 TX_SAP, RX_SAP = 48, 49
 DLC_SAP, DLC_CONNECTOR_SAP = 32, 33     # below the UI socket: nfcpy serves the lower address first, I and UI interleave
@@ -138,19 +181,34 @@ def pairwise(rng, params, tries=25):
 
 
 def random_flat(rng):
-    return {p: rng.choice(list(d)) for p, d in PARAMS}
+    f = {p: rng.choice(list(d)) for p, d in PARAMS}
+    for k in ("omit_i", "omit_t"):              # two of three devices pass every option explicitly
+        if rng.random() < 0.55:
+            f[k] = ""
+    return f
+
+
+def eff(dev, name):
+    """the value an option has for planning purposes (its default when the device omits it)"""
+    return DEFAULTS[name] if name in dev.get("omit", ()) else dev[name]
 
 
 def to_cell(flat, rng):
     """flat parameter dict -> cell {"i": device options of the initiating device, "t": ... of the target device}"""
     i = {"brs": flat["brs"], "lri": flat["lri"], "miu": flat["miu_i"], "lto": flat["lto_i"], "agf": flat["agf_i"],
-         "lsc": flat["lsc_i"], "snep": flat["snep_i"], "acm": flat["acm"],
+         "lsc": flat["lsc_i"], "snep": flat["snep_i"], "omit": list(OMIT_SETS[flat.get("omit_i", "")]),
          "lrt": rng.randrange(4), "rwt": rng.randrange(15)}                     # ignored by an initiator
     t = {"lrt": flat["lrt"], "rwt": flat["rwt"], "miu": flat["miu_t"], "lto": flat["lto_t"], "agf": flat["agf_t"],
-         "lsc": flat["lsc_t"], "snep": flat["snep_t"], "acm": None,
+         "lsc": flat["lsc_t"], "snep": flat["snep_t"], "omit": list(OMIT_SETS[flat.get("omit_t", "")]),
          "brs": rng.randrange(3), "lri": rng.randrange(4)}                      # ignored by a target
-    return {"i": i, "t": t, "swap": flat["swap"], "alt": flat["alt"], "did": flat.get("did"), "nad": flat.get("nad"),
-            "tseed": flat["tseed"]}
+    roles = flat.get("roles", "it")
+    cell = {"i": i, "t": t, "swap": flat["swap"], "alt": roles != "it", "none": roles == "--",
+            "did": flat.get("did"), "nad": flat.get("nad"), "tseed": flat["tseed"]}
+    if cell["did"] is not None or cell["nad"] is not None:
+        cell["none"] = False                    # DID / NAD need the initiator role (llc.activate is called directly)
+    if flat.get("mute"):
+        cell["mute"] = dict(flat["mute"])       # behavioural link time-out variant
+    return cell
 
 
 def split_sizes(total, k, xr):
@@ -175,7 +233,7 @@ def extras_for(cell):
     """the extra post-activation traffic of a cell, a deterministic function of its option tuple (kept in cell["x"] so
     that a witness replays exactly)"""
     xr = random.Random("C19x|" + repr(cell_key(cell)))
-    mi, mt = cell["i"]["miu"], cell["t"]["miu"]
+    mi, mt = eff(cell["i"], "miu"), eff(cell["t"], "miu")
     x = {}
     # SNL: the initiator's batch fills the target's MIU; the target answers with one SDRES (4 octets) per SDREQ that
     # fitted the initiator's first SNL PDU and fills the rest of the initiator's MIU with its own batch
@@ -217,6 +275,9 @@ def group_sizes(total, n, overhead, cap):
     return [data // n + (1 if j < data % n else 0) for j in range(n)]
 
 
+EXPLICIT = {"omit_i": "", "omit_t": ""}
+
+
 def quick_cells(seed):
     rng = random.Random(seed * 7919 + 19)
     flats = pairwise(rng, PARAMS)
@@ -225,39 +286,89 @@ def quick_cells(seed):
             for lri in range(4):
                 for lrt in range(4):
                     f = random_flat(rng)
-                    f.update(swap=swap, brs=brs, lri=lri, lrt=lrt)
+                    f.update(EXPLICIT, swap=swap, brs=brs, lri=lri, lrt=lrt)
                     flats.append(f)
     for rwt in range(15):                                 # every WT with small and large LTO on the target
         for lto_t in (10, 2550):
             f = random_flat(rng)
-            f.update(rwt=rwt, lto_t=lto_t)
+            f.update(EXPLICIT, rwt=rwt, lto_t=lto_t)
             flats.append(f)
     for mi in MIUS:                                       # every MIU pair
         for mt in MIUS:
             f = random_flat(rng)
-            f.update(miu_i=mi, miu_t=mt)
+            f.update(EXPLICIT, miu_i=mi, miu_t=mt)
+            flats.append(f)
+    for li in range(4):                                   # every LSC pair, announced explicitly on both devices
+        for lt in range(4):
+            f = random_flat(rng)
+            f.update(EXPLICIT, lsc_i=li, lsc_t=lt)
             flats.append(f)
     for lri in range(4):                                  # lower level: DID / NAD through llc.activate()
         for did, nad in ((1, None), (14, None), (None, 7), (3, 9)):
             f = random_flat(rng)
-            f.update(lri=lri, did=did, nad=nad, lrt=rng.randrange(4), brs=rng.randrange(3),
+            f.update(lri=lri, did=did, nad=nad, lrt=rng.randrange(4), brs=rng.randrange(3), omit_i="",
                      miu_i=rng.choice([248, 1000, 2175]), lto_i=500, lto_t=500)
             flats.append(f)
+    flats += mute_flats(rng, dense=False)
     return flats, rng
 
 
-def full_grid_cell(index, rng):
-    """index in range(51840): swap x brs x lri x lrt x rwt x miu_i x miu_t, everything else rotated/random"""
+def mute_flats(rng, dense):
+    """behavioural link time-out cells: every LTO pair; after `after` idle SYMM turns every frame of one side is
+    dropped.  WT 14 / 11 make the response waiting time longer than most LTO values (then the LTO alone decides when
+    the initiator may give up), WT 8 is the default"""
+    flats = []
+    k = 0
+    for lto_i in LTOS:
+        for lto_t in LTOS:
+            k += 1
+            for side in ("i", "t"):
+                j = k + (side == "t")
+                for after in ((2, 12) if dense else ((2, 12)[j % 2],)):
+                    for rwt in ((14, 11, 8) if dense else ((14, 8, 14, 11)[(j // 2) % 4],)):
+                        f = random_flat(rng)
+                        f.update(EXPLICIT, lto_i=lto_i, lto_t=lto_t, rwt=rwt, roles=("it", "i-", "--")[j % 3],
+                                 mute={"side": side, "after": after})
+                        flats.append(f)
+    return flats
+
+
+def rotation(index):
+    """the parameters the complete grid does not enumerate, as the mixed-radix digits of a multiplicative hash of the
+    grid index: a deterministic function of the index, every value of every parameter equally often, (practically)
+    uncorrelated with the enumerated digits"""
+    h = (index * 2654435761 + 0x9E3779B9) % (1 << 32)
+    h ^= h >> 15
+    out = {}
+    for name, dom in PARAMS:
+        if name not in GRID_DIMS:
+            h, r = divmod(h * 31 + 7, len(dom))
+            out[name] = dom[r]
+            h = (h * 2654435761 + index) % (1 << 32)
+    return out
+
+
+GRID_DIMS = ("miu_t", "miu_i", "rwt", "lrt", "lri", "brs", "swap")
+
+
+def full_grid_cell(index):
+    """index in range(51840): swap x brs x lri x lrt x rwt x miu_i x miu_t; the other parameters by rotation(index);
+    every 61st cell carries a DID and / or NAD (through llc.activate)"""
     n = index
-    flat = {}
-    for name, dom in (("miu_t", MIUS), ("miu_i", MIUS), ("rwt", list(range(15))), ("lrt", [0, 1, 2, 3]),
-                      ("lri", [0, 1, 2, 3]), ("brs", [0, 1, 2]), ("swap", [0, 1])):
+    flat = rotation(index)
+    doms = dict(PARAMS)
+    for name in GRID_DIMS:
+        dom = doms[name]
         flat[name] = dom[n % len(dom)]
         n //= len(dom)
     assert n == 0
-    for name, dom in PARAMS:
-        if name not in flat:
-            flat[name] = rng.choice(list(dom))
+    # the enumerated options are passed explicitly: omitting them would silently shrink the grid
+    flat["omit_i"] = "llc" if flat["omit_i"] in ("llc", "all") and flat["miu_i"] == 248 else ""
+    flat["omit_t"] = "llc" if flat["omit_t"] in ("llc", "all") and flat["miu_t"] == 248 else ""
+    if index % 61 == 0:
+        k = index // 61
+        flat["did"], flat["nad"] = ((1, None), (14, None), (None, 7), (3, 9), (7, None), (None, 255))[k % 6]
+        flat["omit_i"] = ""
     return flat
 
 
@@ -267,7 +378,7 @@ GRID = 2 * 3 * 4 * 4 * 15 * 6 * 6
 def plan(tier, seed):
     n = 16
     if tier == "quick":
-        return [{"mode": "quick", "part": i, "parts": n, "extra": 70, "timeout": 300} for i in range(n)]
+        return [{"mode": "quick", "part": i, "parts": n, "extra": 80, "timeout": 300} for i in range(n)]
     return [{"mode": "grid", "part": i, "parts": n, "timeout": 3000} for i in range(n)]
 
 
@@ -340,6 +451,9 @@ class AirMonitor(object):
         self.n_agf_near = 0         # aggregates within 4 octets of the receiver's MIU
         self.kinds = set()
         self.conn_params = set()    # (miu, rw) seen in CONNECT / CC
+        self.n_gaps = 0             # silences measured for the lto/... clause
+        self.n_atn = 0              # ATN requests of the initiator whose distance to its previous request was judged
+        self.scripted = False       # one station is not nfcpy (no listener/ephemeral port convention)
 
     def on_frame(self, f):
         try:
@@ -347,9 +461,9 @@ class AirMonitor(object):
         except Exception as e:          # a monitor bug must not kill a stack thread
             self.error = self.error or exc_text(e)
 
-    def _problem(self, sig, text):
+    def _problem(self, sig, text, d=None):
         if len(self.problems) < 40:
-            self.problems.append((sig, text))
+            self.problems.append((sig, text, d))
 
     def _frame(self, f):
         if f.rfoff:
@@ -363,7 +477,7 @@ class AirMonitor(object):
         if td is None:
             return
         d = ">" if td[0] == 0xD4 else "<"
-        if (d == ">") != bool(f.to_listener):
+        if (d == ">") != bool(f.to_listener) and not self.scripted:
             self.direction_mismatch += 1
         code = td[1]
         if d == ">" and code == 0x00:
@@ -375,7 +489,8 @@ class AirMonitor(object):
                  "buf": {">": b"", "<": b""}, "last_td": {">": None, "<": None}, "pdus": [], "frames": 0,
                  "owes": {"i": None, "t": None}, "max_gap": {"i": 0.0, "t": 0.0}, "closing": False,
                  "ui": {">": [], "<": []}, "symm": {">": 0, "<": 0}, "agf": 0, "final_brty": {},
-                 "dep_seen": {">": 0, "<": 0}, "conn_req": {}, "conn": {}, "snl": {">": [], "<": []}}
+                 "dep_seen": {">": 0, "<": 0}, "conn_req": {}, "conn": {}, "snl": {">": [], "<": []},
+                 "last_req_t": None, "t_last": {">": None, "<": None}}
             self.cur = s
             self.sessions.append(s)
             return
@@ -403,7 +518,7 @@ class AirMonitor(object):
         if len(td) > lr_rx:
             self._problem("air/frame>lr/%s/%s" % ("to-target" if d == ">" else "to-initiator", kind),
                           "%s frame %s with %d bytes of transport data, receiver announced LR=%d (frame %d)"
-                          % (kind, d, len(td), lr_rx, f.n))
+                          % (kind, d, len(td), lr_rx, f.n), d)
         if len(td) == lr_rx:
             self.n_exact_lr += 1
         if s["psl_done"]:
@@ -413,7 +528,7 @@ class AirMonitor(object):
         if exp is not None and f.brty != exp:
             self._problem("air/brty!=selected/%s" % ("to-target" if d == ">" else "to-initiator"),
                           "%s frame %s sent at %s, selected was %s (PSL %s, frame %d)"
-                          % (kind, d, f.brty, exp, s["psl"], f.n))
+                          % (kind, d, f.brty, exp, s["psl"], f.n), d)
         self.brtys.add(f.brty)
         s["frames"] += 1
         # silence of the sender since the first frame it has not yet answered (logical clock)
@@ -421,11 +536,27 @@ class AirMonitor(object):
         rx = s["owes"][side]
         if rx is not None and not self.stop_gap:
             gap = f.t - rx
+            self.n_gaps += 1
             if gap > s["max_gap"][side]:
                 s["max_gap"][side] = gap
         s["owes"][side] = None
         if s["owes"][other] is None:
             s["owes"][other] = f.t
+        # the response waiting time the target announced: the initiator asks for attention (DEP_REQ, PFB 100 0xxxx)
+        # only after it has waited that long for the response to its previous request (logical clock)
+        if d == "<":
+            s["last_req_t"] = None
+        else:
+            if code == 0x06 and len(td) >= 3 and td[2] & 0xF0 == 0x80 and s["last_req_t"] is not None:
+                self.n_atn += 1
+                rwt = 4096 / 13.56E6 * 2 ** min(s["atr_res"]["wt"], 14)
+                if f.t - s["last_req_t"] < rwt - 1e-9:
+                    self._problem("air/atn-before-announced-rwt/initiator",
+                                  "the initiator sent an attention request %.3f ms after its previous request, the "
+                                  "target announced WT=%d (RWT %.3f ms) (frame %d)"
+                                  % ((f.t - s["last_req_t"]) * 1e3, s["atr_res"]["wt"], rwt * 1e3, f.n), d)
+            s["last_req_t"] = f.t
+        s["t_last"][d] = f.t
         if code == 0x04 and d == ">":
             if len(td) >= 5:
                 dsi, dri = (td[3] >> 3) & 7, td[3] & 7
@@ -485,7 +616,7 @@ class AirMonitor(object):
         if n > miu:
             self._problem("air/llc-pdu>miu/%s/%s" % (dec["t"], where),
                           "%s PDU with %d bytes of information, receiver announced MIU=%d (frame %d)"
-                          % (dec["t"], n, miu, f.n))
+                          % (dec["t"], n, miu, f.n), d)
         if dec["t"] == "AGF":
             s["agf"] += 1
             self.n_agf += 1
@@ -495,7 +626,7 @@ class AirMonitor(object):
                 m = len(sub["data"]) if sub["t"] in ("UI", "I") else 0
                 if m > miu:
                     self._problem("air/llc-pdu>miu/AGF-member-%s/%s" % (sub["t"], where),
-                                  "%s inside an AGF with %d bytes, receiver MIU=%d" % (sub["t"], m, miu))
+                                  "%s inside an AGF with %d bytes, receiver MIU=%d" % (sub["t"], m, miu), d)
         if dec["t"] == "SNL":
             if n == miu:
                 self.n_snl_exact += 1
@@ -543,7 +674,8 @@ class AirMonitor(object):
                 if m > lim["miu"]:
                     self._problem("air/i-pdu>conn-miu/%s" % where,
                                   "I PDU %d->%d with %d bytes of service data, the receiving endpoint announced MIU=%d "
-                                  "in its %s (frame %d)" % (sub["ssap"], sub["dsap"], m, lim["miu"], lim["by"], f.n))
+                                  "in its %s (frame %d)" % (sub["ssap"], sub["dsap"], m, lim["miu"], lim["by"], f.n),
+                                  d)
 
     def conn_limit(self, d, dsap, ssap):
         """{"miu", "rw"} announced on the air by the endpoint that receives I PDUs sent in direction d to dsap from ssap"""
@@ -570,9 +702,9 @@ def traffic_sizes(miu, seed):
 
 
 def llcp_options(dev, role):
-    o = {"role": role, "brs": dev["brs"], "lri": dev["lri"], "lrt": dev["lrt"], "rwt": dev["rwt"],
-         "miu": dev["miu"], "lto": dev["lto"], "agf": dev["agf"], "lsc": dev["lsc"]}
-    if dev.get("acm") is not None:
+    o = {k: dev[k] for k in ("brs", "lri", "lrt", "rwt", "miu", "lto", "agf", "lsc") if k not in dev.get("omit", ())}
+    o["role"] = role
+    if dev.get("acm") is not None:      # witnesses of earlier versions (the udp driver has no active mode: inert)
         o["acm"] = dev["acm"]
     return o
 
@@ -611,9 +743,103 @@ class CellRun(object):
         self.linger_from = None
         self.helper_waits_expired = 0
         self.helpers_stuck = 0
+        # behavioural link time-out variant
+        self.mute = cell.get("mute")
+        self.probe = None
+        self.released_at = {}                   # side -> logical time of its on-release callback
+        self.thread_side = {}                   # thread -> side (set in on-connect)
+        self.gate_expired = False
+        self.peer = None                        # ScriptedPeer of a cell whose other station is not nfcpy
 
     def helpers_alive(self):
         return any(th.is_alive() for th in self.helpers)
+
+
+class MuteProbe(object):
+    """behavioural link time-out variant: once the planned UI traffic is through and `after` more SYMM PDUs went each
+    way, every frame of one side is dropped (fakenet hook).  Records, on the logical clock, every frame after that
+    and every driver operation (sendto / select) of the two stack threads, so that the moment a side stops waiting
+    for the silent peer can be read at the driver boundary."""
+
+    def __init__(self, cr, net):
+        self.cr, self.net = cr, net
+        self.side = cr.mute["side"]             # whose frames are dropped
+        self.after = cr.mute["after"]
+        self.ready_symm = None
+        self.muted_at = None
+        self.frames = []                        # (t, d, dropped, code, pfb) from the moment of muting
+        self.ops = {}                           # thread -> [(t, op, is_dep_frame)]
+        self.error = None
+
+    def hook(self, f):
+        if self.muted_at is None or f.rfoff or f.payload is None:
+            return None
+        td = dep_unwrap(f.brty, f.payload)
+        if td is None:
+            return None
+        return "drop" if (td[0] == 0xD4) == (self.side == "i") else None
+
+    def on_frame(self, f):
+        try:
+            self._frame(f)
+        except Exception as e:
+            self.error = self.error or exc_text(e)
+
+    def _frame(self, f):
+        if f.rfoff or f.payload is None:
+            return
+        td = dep_unwrap(f.brty, f.payload)
+        if td is None:
+            return
+        d = ">" if td[0] == 0xD4 else "<"
+        if self.muted_at is not None:
+            self.frames.append((f.t, d, f.fate == "dropped", td[1], td[2] if len(td) > 2 else None))
+            return
+        cr, mon = self.cr, self.cr.mon
+        s = mon.final()
+        if s is None or d != "<" or len(cr.snap) < 2:
+            return
+        if len(s["ui"][">"]) < len(cr.sent["i"]) or len(s["ui"]["<"]) < len(cr.sent["t"]):
+            return
+        n = min(s["symm"][">"], s["symm"]["<"])
+        if self.ready_symm is None:
+            self.ready_symm = n
+        if n >= self.ready_symm + self.after:
+            self.muted_at = f.t
+            mon.stop_gap = True
+
+    def sock_op(self, op, sock, args):
+        if op in ("sendto", "select"):
+            dep = False
+            if op == "sendto":
+                brty, payload, rfoff = _parse(args[0])
+                td = None if payload is None else dep_unwrap(brty, payload)
+                dep = td is not None and td[1] in (0x06, 0x07)
+            ops = self.ops.setdefault(threading.current_thread(), [])
+            if self.muted_at is None and len(ops) > 8:
+                del ops[:-4]                    # before the muting only the latest operations matter
+            ops.append((self.net.now(), op, dep))
+        return None
+
+    def gave_up_at(self, thread):
+        """logical time of the thread's first driver operation that starts later than its last DEP frame went out:
+        its wait for the answer has ended then (None: it never came back to the driver)"""
+        ops = self.ops.get(thread, [])
+        last = None
+        for k, (t, op, dep) in enumerate(ops):
+            if dep:
+                last = k
+        if last is None:
+            return None
+        for t, op, dep in ops[last + 1:]:
+            if t > ops[last][0] + 1e-9:
+                return t
+        return None
+
+
+def _parse(raw):
+    from vf.sim import fakenet
+    return fakenet.parse_datagram(raw)
 
 
 def sd_pending(llc):
@@ -629,7 +855,7 @@ def run_cell(cell):
     import nfc.llcp.llc
     from vf.sim import fakenet
 
-    if EXTRA_TRAFFIC and "x" not in cell:
+    if EXTRA_TRAFFIC and "x" not in cell and not cell.get("mute"):
         cell = dict(cell, x=extras_for(cell))
     cr = CellRun(cell)
     x = cr.x if EXTRA_TRAFFIC else None
@@ -637,11 +863,25 @@ def run_cell(cell):
     mon = cr.mon
     net.observers.append(mon.on_frame)
     DLC = nfc.llcp.DATA_LINK_CONNECTION
+    if cr.mute:
+        x = cr.x = None             # idle link: only the UI traffic, no helper threads
+        cr.probe = MuteProbe(cr, net)
+        net.hook = cr.probe.hook
+        net.sock_fault = cr.probe.sock_op
+        net.observers.append(cr.probe.on_frame)
+    # role given on neither device: the device that binds its listen socket first becomes the target.  The other
+    # device is held back (real time, bounded; the outcome only decides which role a device gets, never a verdict)
+    # in its on-startup callback until that has happened, so that the labels "i" / "t" of the cell come out right
+    gate = threading.Event()
+    if cell.get("none"):
+        net.on_bind = lambda sock, addr: gate.set()
 
     def startup(side):
         dev = cell[side]
 
         def on_startup(llc):
+            if cell.get("none") and side == "i" and not gate.wait(10.0):
+                cr.gate_expired = True
             rx = nfc.llcp.Socket(llc, nfc.llcp.LOGICAL_DATA_LINK)
             rx.setsockopt(nfc.llcp.SO_RCVBUF, 64)
             rx.bind(RX_SAP)
@@ -716,10 +956,13 @@ def run_cell(cell):
         except Exception as e:
             cr.adapter_error = cr.adapter_error or exc_text(e)
             return
+        ths = []
         for j, name in enumerate(names):            # one by one: the order of the requests is the order of the names
-            helper(resolver(name), "resolve-%s%d" % (side, j))
+            ths.append(helper(resolver(name), "resolve-%s%d" % (side, j)))
             t0 = _time.time()
-            while sd_pending(llc) - base < j + 1 and _time.time() - t0 < 3.0:
+            # the link loop does not run yet: a resolve() that has returned already was refused locally and will never
+            # be queued, every other one blocks once it is queued
+            while sd_pending(llc) - base < sum(th.is_alive() for th in ths) and _time.time() - t0 < 3.0:
                 _time.sleep(0.0002)
         b["pending"] = sd_pending(llc) - base
         b["confirmed"] = b["pending"] == len(names)
@@ -830,6 +1073,7 @@ def run_cell(cell):
 
     def on_connect(side):
         def cb(llc):
+            cr.thread_side[threading.current_thread()] = side
             try:
                 cr.snap[side] = snapshot(llc)
             except Exception as e:
@@ -882,15 +1126,25 @@ def run_cell(cell):
         if done:        # the planned traffic is through: a few more idle turns
             done = (s["symm"][">"] >= max(LINGER_SYMM, cr.linger_from[0] + LINGER_AFTER)
                     and s["symm"]["<"] >= max(LINGER_SYMM, cr.linger_from[1] + LINGER_AFTER))
+        if cr.mute:
+            done = False            # the link ends by itself: the side that hears nothing gives up
         if done or res.polls[side] > 3000:
             mon.stop_gap = True
             return True
         return False
 
-    oi = llcp_options(cell["i"], "initiator")
+    def release(side):
+        def on_release(llc):
+            cr.released_at[side] = net.now()
+            return True
+        return on_release
+
+    oi = llcp_options(cell["i"], None if cell.get("none") else "initiator")
     ot = llcp_options(cell["t"], None if cell.get("alt") else "target")
     oi["on-startup"] = startup("i")
     ot["on-startup"] = startup("t")
+    oi["on-release"] = release("i")
+    ot["on-release"] = release("t")
 
     connect_i = None
     if cell.get("did") is not None or cell.get("nad") is not None:
@@ -945,9 +1199,531 @@ class _Swapped(object):
         return v
 
 
+# ------------------------------------------------------------------------------------------ scripted peer
+# A station that is not nfcpy: ISO/IEC 18092 passive target or initiator with a minimal LLC (SYMM, UI), written from
+# the frame formats at the head of this module and vf.ref.llcp_ref.  It is driven synchronously by the datagrams the
+# nfcpy stack sends (fakenet responder), answers in zero logical time and never uses a timer: the run is
+# single-threaded and deterministic.  What it announces comes from a script (ATR bytes, PAX TLVs in any order, with
+# reserved bits, unknown or missing TLVs); what nfcpy must make of it is read by the independent decoder
+# (LLCP 1.3: MIUX is an 11 bit field, the other bits are ignored; absent MIUX = 128, absent LTO = 100 ms, absent OPT =
+# link service class 0, absent WKS = no well-known service; unknown TLVs are ignored) and cross-checked with the
+# script's own intention.
+def tlv(t, v):
+    return [t, bytes(v)]
+
+
+def pax_script(name, miu=None, lto=None, wks=None, lsc=None, version=0x13, order=None, rfu_miux=0, rfu_opt=0, junk=()):
+    """-> (TLV list for the general bytes, expected reading)"""
+    items = {"ver": tlv(ref.T_VERSION, [version])}
+    exp = {"miu": 128, "lto": 100, "wks": 0, "lsc": 0}
+    if miu is not None:
+        items["miux"] = tlv(ref.T_MIUX, [((miu - 128) >> 8) | rfu_miux, (miu - 128) & 0xFF])
+        exp["miu"] = miu
+    if wks is not None:
+        items["wks"] = tlv(ref.T_WKS, [wks >> 8, wks & 0xFF])
+        exp["wks"] = wks
+    if lto is not None:
+        items["lto"] = tlv(ref.T_LTO, [lto // 10])
+        exp["lto"] = lto
+    if lsc is not None:
+        items["opt"] = tlv(ref.T_OPT, [lsc | rfu_opt])
+        exp["lsc"] = lsc
+    seq = [items[k] for k in (order or ("ver", "miux", "wks", "lto", "opt")) if k in items]
+    for pos, (t, v) in junk:
+        seq.insert(min(pos, len(seq)), tlv(t, v))
+    return {"name": name, "pax": seq, "expect": exp}
+
+
+def pax_variants(rot):
+    """the PAX scripts; rot rotates the values"""
+    mius = [128, 129, 247, 248, 1000, 2175, 300, 2047]
+    ltos = [10, 20, 500, 1000, 2550, 100, 50, 990]
+    wkss = [0x0001, 0x0003, 0x0013, 0xFFFF, 0x8001, 0x7FFF, 0x0201, 0x0011]
+    m, l, w = mius[rot % 8], ltos[(rot // 2) % 8], wkss[(rot // 3) % 8]
+    c = rot % 4
+    return [
+        pax_script("canonical", m, l, w, c),
+        pax_script("reversed-order", m, l, w, c, order=("opt", "lto", "wks", "miux", "ver")),
+        pax_script("shuffled-order", m, l, w, c, order=("wks", "ver", "opt", "miux", "lto")),
+        pax_script("miux-rfu-bits", m, l, w, c, rfu_miux=(0xF8, 0x80, 0x08, 0x50)[rot % 4]),
+        pax_script("opt-rfu-and-dpc-bits", m, l, w, c, rfu_opt=(0xF8, 0x04, 0x80, 0x0C)[rot % 4]),
+        pax_script("unknown-tlvs", m, l, w, c, junk=((1, (0x20, b"abc")), (3, (0xFF, b"")), (9, (0x0C, b"\x01")))),
+        pax_script("no-miux", None, l, w, c),
+        pax_script("no-lto", m, None, w, c),
+        pax_script("no-opt", m, l, w, None),
+        pax_script("no-wks", m, l, None, c),
+        pax_script("version-only"),
+        pax_script("version-1.1", m, l, w, c, version=0x11),
+        pax_script("wks-all-and-lto-max", 2175, 2550, 0xFFFF, 3),
+        pax_script("smallest", 128, 10, 0x0001, 0),
+    ]
+
+
+def scripted_cells(seed, dense):
+    """cells in which one station is the scripted peer.  nfcpy as initiator finds its target at 106A or (brs > 0) at
+    212F; nfcpy as target is found at 106A, 212F or 424F, with or without polling before the ATR_REQ, with or
+    without a PSL_REQ, with or without a DID"""
+    rng = random.Random(seed * 613 + 7)
+    cells = []
+    k = 0
+    for rep in range(8 if dense else 4):
+        for role in ("target", "initiator"):
+            for v in pax_variants(seed + k + rep * 5):
+                k += 1
+                flat = random_flat(rng)
+                flat.update(roles=("it", "i-")[k % 2], swap=0)
+                cell = to_cell(flat, rng)
+                sc = {"scripted": True, "role": role, "name": "%s/%s" % (role, v["name"]), "pax": v["pax"],
+                      "expect": v["expect"], "lr": k % 4, "miu": v["expect"]["miu"]}
+                if role == "target":
+                    sc["wt"] = (8, 14, 10, 15, 9, 12, 11, 13)[k % 8]
+                    sc["brty"] = ("106A", "212F")[(k // 2) % 2]
+                    if sc["brty"] == "212F":                  # nfcpy polls at 212F only when it may switch up
+                        cell["i"]["brs"] = (1, 2)[k % 2]
+                        cell["i"]["omit"] = [o for o in cell["i"]["omit"] if o != "brs"]
+                    cell["t"] = sc
+                    cell["alt"] = False
+                    cell["none"] = bool(k % 3 == 0)               # the nfcpy device has no role given
+                else:
+                    sc["brty"] = ("106A", "212F", "424F")[k % 3]
+                    sc["poll"] = bool((k // 3) % 2)
+                    sc["did"] = (0, 0, 1, 14)[(k // 2) % 4]
+                    up = [b for b in range(3) if b > BRTY.index(sc["brty"])]
+                    sc["psl"] = up[k % len(up)] if up and (k // 2) % 2 else None
+                    sc["end"] = ("DSL", "RLS")[k % 2]
+                    cell["i"] = sc
+                    cell["none"] = False
+                cell.pop("did", None)
+                cell.pop("nad", None)
+                cell["did"] = cell["nad"] = None
+                cells.append(cell)
+    return cells
+
+
+def dep_wrap(brty, td):
+    p = bytes([len(td) + 1]) + bytes(td)
+    if brty == "106A":
+        p = b"\xF0" + p
+    return brty.encode("ascii") + b" " + p.hex().encode("ascii")
+
+
+def raw_frame(brty, p):
+    return brty.encode("ascii") + b" " + bytes(p).hex().encode("ascii")
+
+
+SDD_RES = bytes([0x08, 0x19, 0xC1, 0x9A])
+IDM = bytes([0x01, 0xFE, 0x19, 0xC1, 0x9A, 0x00, 0x5C, 0x21])
+NFCID3 = IDM + b"\x00\x00"
+
+
+class ScriptedPeer(object):
+    PORT = 54321                # the port every udp device of the test net talks to
+    MAX_TURNS = 900
+
+    def __init__(self, net, sc, side):
+        self.net, self.sc, self.side = net, sc, side
+        self.role = sc["role"]
+        self.expect = sc["expect"]
+        self.gb = b"Ffm" + b"".join(bytes([t, len(v)]) + bytes(v) for t, v in sc["pax"])
+        self.lr = LR[sc["lr"]]
+        self.cur = sc["brty"]           # bit rate in use
+        self.did = sc.get("did", 0) if self.role == "initiator" else 0
+        self.peer_lr = None
+        self.peer_pax = None
+        self.phase = "discover"
+        self.pni = 0                    # initiator: number of the next information / ack frame
+        self.last_pni = None            # target: packet number of the latest request
+        self.last = None                # latest numbered frame sent (for retransmission)
+        self.rx = b""
+        self.tx = []
+        self.outq = []
+        self.ui_rcvd = []
+        self.ui_sent = []
+        self.kinds = set()
+        self.turns = 0
+        self.idle = 0                   # consecutive SYMM PDUs from nfcpy
+        self.dep_seen = False
+        self.ended = None
+        self.restarts = 0
+        self.error = None
+        self.closing = False
+        if self.role == "target":
+            self.sock = net.add_responder(("127.0.0.1", self.PORT), self.on_datagram)
+        else:
+            self.sock = net.add_responder(("127.0.0.1", 40404), self.on_datagram)
+            net.on_bind = self.on_bind
+
+    # -- fakenet callbacks (net lock held, must not block)
+    def on_bind(self, sock, addr):
+        try:
+            if addr[1] != self.PORT or sock is self.sock or self.restarts >= 3 or self.dep_seen:
+                return
+            self.restarts += 1
+            self.cur = self.sc["brty"]
+            self.phase = "discover"
+            self.sock.sendto(self._first(), ("127.0.0.1", self.PORT))
+        except Exception as e:
+            self.error = self.error or exc_text(e)
+
+    def on_datagram(self, raw, src, sock):
+        try:
+            brty, p, rfoff = _parse(raw)
+            if rfoff or p is None:
+                return ()
+            out = self._target(brty, p) if self.role == "target" else self._initiator(brty, p)
+            return [out] if out else ()
+        except Exception as e:
+            self.error = self.error or exc_text(e)
+            return ()
+
+    # -- NFC-DEP framing
+    def _pfb_tail(self):
+        return (0x04, bytes([self.did])) if self.did else (0, b"")
+
+    def _room(self):
+        return self.peer_lr - 3 - (1 if self.did else 0)
+
+    def _atr_seen(self, gb):
+        self.peer_pax = pax_of(gb)
+        if self.peer_pax is not None:
+            # UI PDUs of exactly the MIU nfcpy announced, one smaller, one tiny
+            m = self.peer_pax["miu"]
+            for idx, n in enumerate((m, max(1, m - 1), 3)):
+                data = ui_data(idx, n)
+                self.ui_sent.append(data)
+                self.outq.append(ref.encode({"t": "UI", "dsap": RX_SAP, "ssap": TX_SAP, "data": data}))
+
+    # -- LLC
+    def _llc_in(self, pdu):
+        self.turns += 1
+        try:
+            dec = ref.decode(pdu)
+        except ref.Reject:
+            self.kinds.add("undecodable")
+            return
+        if dec["t"] == "SYMM":
+            self.idle += 1
+        else:
+            self.idle = 0
+        for sub in ref.flatten(dec):
+            self.kinds.add(sub["t"])
+            if sub["t"] == "UI" and sub["dsap"] == RX_SAP:
+                self.ui_rcvd.append(len(sub["data"]))
+            elif sub["t"] == "DISC" and sub["dsap"] == 0 and sub["ssap"] == 0:
+                self.closing = True
+
+    def _llc_out(self):
+        return self.outq.pop(0) if self.outq else b"\x00\x00"
+
+    # -- target role
+    def _target(self, brty, p):
+        if brty != self.cur:
+            return None                                     # not my bit rate: silence
+        if self.phase == "discover":
+            if brty == "106A":
+                if p == b"\x26":
+                    return raw_frame(brty, b"\x01\x01")
+                if p == b"\x93\x20":
+                    bcc = SDD_RES[0] ^ SDD_RES[1] ^ SDD_RES[2] ^ SDD_RES[3]
+                    return raw_frame(brty, SDD_RES + bytes([bcc]))
+                if p[:2] == b"\x93\x70":
+                    return raw_frame(brty, b"\x40")
+            elif p[:2] == b"\x06\x00" and p[0] == len(p):
+                return raw_frame(brty, bytes([18, 1]) + IDM + bytes(8))
+        td = dep_unwrap(brty, p)
+        if td is None or td[0] != 0xD4:
+            return None
+        code = td[1]
+        if code == 0x00 and len(td) >= 16:
+            self.phase = "atr"
+            self.did = td[12]
+            self.peer_lr = LR[(td[15] >> 4) & 3]
+            self._atr_seen(td[16:] if td[15] & 2 else b"")
+            res = b"\xD5\x01" + NFCID3 + bytes([self.did, 0, 0, self.sc["wt"], (self.sc["lr"] << 4) | 2]) + self.gb
+            return dep_wrap(brty, res)
+        if self.phase == "discover":
+            return None
+        if code == 0x04 and len(td) >= 5:
+            out = dep_wrap(brty, b"\xD5\x05" + bytes([td[2]]))
+            dsi = (td[3] >> 3) & 7
+            if dsi < 3:
+                self.cur = BRTY[dsi]
+            return out
+        if code in (0x08, 0x0A):
+            self.ended = "DSL" if code == 0x08 else "RLS"
+            return dep_wrap(brty, bytes([0xD5, code + 1]) + td[2:3])
+        if code != 0x06 or len(td) < 3:
+            return None
+        self.dep_seen = True
+        self.phase = "dep"
+        pfb = td[2]
+        i = 3 + bool(pfb & 0x04) + bool(pfb & 0x08)
+        data = td[i:]
+        flag, tail = self._pfb_tail()
+
+        def res(bits, payload=b""):
+            return b"\xD5\x07" + bytes([bits | flag]) + tail + payload
+        typ = pfb & 0xE0
+        if typ == 0x80:                                     # attention (time-out extension is never requested)
+            return dep_wrap(brty, res(0x80))
+        pni = pfb & 3
+        if typ == 0x40 and pfb & 0x10:                      # NACK: once more
+            return dep_wrap(brty, self.last) if self.last else None
+        if pni == self.last_pni and self.last is not None:  # the request again: the response again
+            return dep_wrap(brty, self.last)
+        if typ == 0x40:                                     # ACK: the next part of my chain
+            if not self.tx:
+                return None
+            chunk = self.tx.pop(0)
+            out = res((0x10 if self.tx else 0) | pni, chunk)
+        elif typ == 0x00:
+            self.rx += data
+            if pfb & 0x10:
+                out = res(0x40 | pni)
+            else:
+                pdu, self.rx = self.rx, b""
+                self._llc_in(pdu)
+                send = self._llc_out()
+                room = self._room()
+                self.tx = [send[k:k + room] for k in range(0, len(send), room)]
+                chunk = self.tx.pop(0)
+                out = res((0x10 if self.tx else 0) | pni, chunk)
+        else:
+            return None
+        self.last_pni = pni
+        self.last = out
+        return dep_wrap(brty, out)
+
+    # -- initiator role
+    def _first(self):
+        if self.sc.get("poll"):
+            self.phase = "poll"
+            self.poll_step = 0
+            if self.cur == "106A":
+                return raw_frame(self.cur, b"\x26")
+            return raw_frame(self.cur, b"\x06\x00\xFF\xFF\x00\x00")
+        return self._atr_req(NFCID3)
+
+    def _atr_req(self, nfcid3):
+        self.phase = "atr"
+        td = b"\xD4\x00" + nfcid3 + bytes([self.did, 0, 0, (self.sc["lr"] << 4) | 2]) + self.gb
+        return dep_wrap(self.cur, td)
+
+    def _dep_start(self):
+        self.phase = "dep"
+        return self._send_pdu(self._llc_out())
+
+    def _send_pdu(self, pdu):
+        room = self._room()
+        self.tx = [pdu[k:k + room] for k in range(0, len(pdu), room)]
+        return self._next_chunk()
+
+    def _next_chunk(self):
+        flag, tail = self._pfb_tail()
+        chunk = self.tx.pop(0)
+        self.last = b"\xD4\x06" + bytes([(0x10 if self.tx else 0) | flag | self.pni]) + tail + chunk
+        return dep_wrap(self.cur, self.last)
+
+    def _end(self):
+        self.phase = "end"
+        code = 0x08 if self.sc.get("end") == "DSL" else 0x0A
+        return dep_wrap(self.cur, bytes([0xD4, code]) + (bytes([self.did]) if self.did else b""))
+
+    def _initiator(self, brty, p):
+        if brty != self.cur:
+            return None
+        if self.phase == "poll":
+            if self.cur == "106A":
+                self.poll_step += 1
+                if self.poll_step == 1:                     # SENS_RES
+                    return raw_frame(brty, b"\x93\x20")
+                if self.poll_step == 2:                     # SDD_RES: uid + bcc
+                    return raw_frame(brty, b"\x93\x70" + bytes(p[:5]))
+                if p[0] & 0x40 == 0:                        # SEL_RES without the NFC-DEP bit
+                    self.error = "SEL_RES %r without NFC-DEP support" % (bytes(p),)
+                    return None
+                return self._atr_req(NFCID3)
+            if len(p) >= 18 and p[1] == 0x01:               # SENSF_RES: NFCID2 becomes the start of NFCID3
+                return self._atr_req(bytes(p[2:10]) + b"\x00\x00")
+            return None
+        td = dep_unwrap(brty, p)
+        if td is None or td[0] != 0xD5:
+            return None
+        code = td[1]
+        if self.phase == "atr" and code == 0x01 and len(td) >= 17:
+            self.peer_lr = LR[(td[16] >> 4) & 3]
+            self._atr_seen(td[17:] if td[16] & 2 else b"")
+            if self.sc.get("psl") is not None:
+                self.phase = "psl"
+                b = self.sc["psl"]
+                return dep_wrap(brty, b"\xD4\x04" + bytes([self.did, (b << 3) | b, self.sc["lr"]]))
+            return self._dep_start()
+        if self.phase == "psl" and code == 0x05:
+            self.cur = BRTY[self.sc["psl"]]
+            return self._dep_start()
+        if self.phase == "end":
+            if code in (0x09, 0x0B):
+                self.ended = "DSL" if code == 0x09 else "RLS"
+            return None
+        if self.phase != "dep" or code != 0x07 or len(td) < 3:
+            return None
+        self.dep_seen = True
+        pfb = td[2]
+        i = 3 + bool(pfb & 0x04) + bool(pfb & 0x08)
+        data = td[i:]
+        typ = pfb & 0xE0
+        flag, tail = self._pfb_tail()
+        if typ == 0x80:
+            return None                                     # never asked for
+        if (pfb & 3) != self.pni:
+            self.error = "DEP_RES with packet number %d, expected %d" % (pfb & 3, self.pni)
+            return None
+        self.pni = (self.pni + 1) & 3
+        if typ == 0x40:                                     # ACK for a part of my chain
+            return self._next_chunk() if self.tx else None
+        if typ != 0x00:
+            return None
+        self.rx += data
+        if pfb & 0x10:                                      # more to come: acknowledge
+            self.last = b"\xD4\x06" + bytes([0x40 | flag | self.pni]) + tail
+            return dep_wrap(self.cur, self.last)
+        pdu, self.rx = self.rx, b""
+        self._llc_in(pdu)
+        if self.closing or self.turns >= self.MAX_TURNS or (not self.outq and self.idle >= 14):
+            return self._end()
+        return self._send_pdu(self._llc_out())
+
+
+def run_scripted_cell(cell):
+    """one nfcpy stack (its own thread, the only participant of the net clock) against the scripted peer"""
+    import errno
+    import nfc
+    import nfc.llcp
+    from vf.sim import fakenet
+    sside = "i" if cell["i"].get("scripted") else "t"
+    side = "t" if sside == "i" else "i"
+    cr = CellRun(cell)
+    cr.x = None
+    net = cr.net = fakenet.FakeNet(clock="virtual", stall_limit=15.0)
+    mon = cr.mon
+    mon.scripted = True
+    net.observers.append(mon.on_frame)
+    res = cr.res = fakenet.PairResult()
+    dev = cell[side]
+    t0 = _time.time()
+
+    def on_startup(llc):
+        rx = nfc.llcp.Socket(llc, nfc.llcp.LOGICAL_DATA_LINK)
+        rx.setsockopt(nfc.llcp.SO_RCVBUF, 64)
+        rx.bind(RX_SAP)
+        if dev.get("snep"):
+            nfc.llcp.Socket(llc, nfc.llcp.DATA_LINK_CONNECTION).bind("urn:nfc:sn:snep")
+        return llc
+
+    def on_connect(llc):
+        res.llc[side] = llc
+        res.connected[side] += 1
+        try:
+            cr.snap[side] = snapshot(llc)
+        except Exception as e:
+            cr.adapter_error = cr.adapter_error or exc_text(e)
+            return True
+        try:
+            s = mon.final()
+            pax_peer = None if s is None else (s["pax_t"] if side == "i" else s["pax_i"])
+            if pax_peer is None:
+                return True
+            tx = nfc.llcp.Socket(llc, nfc.llcp.LOGICAL_DATA_LINK)
+            tx.bind(TX_SAP)
+            for idx, n in enumerate(traffic_sizes(pax_peer["miu"], cell["tseed"] * 2 + (side == "t"))):
+                data = ui_data(idx, n)
+                try:
+                    tx.sendto(data, RX_SAP, nfc.llcp.MSG_DONTWAIT)
+                    cr.sent[side].append(data)
+                except nfc.llcp.Error as e:
+                    if e.errno == errno.EMSGSIZE:
+                        cr.refused[side].append(n)
+                    else:
+                        cr.sendto_error[side] = repr(e)
+        except Exception as e:
+            res.exc_cb[side] = e
+        return True
+
+    def on_release(llc):
+        res.released[side] += 1
+        cr.released_at[side] = net.now()
+        return True
+
+    def term():
+        res.polls[side] += 1
+        if net.aborted is not None or res.exc_cb[side] is not None:
+            return True
+        if _time.time() - t0 > 30.0:
+            res.inconclusive = res.inconclusive or "watchdog 30s"
+            return True
+        if not res.connected[side]:
+            return res.polls[side] > 40
+        if res.polls[side] > 3000:
+            res.inconclusive = res.inconclusive or "terminate polled more than 3000 times"
+            return True
+        if side == "t":
+            return False            # the scripted initiator ends the link (DSL_REQ / RLS_REQ)
+        s = mon.final()
+        if s is None:
+            return True
+        done = len(s["ui"][">"]) >= len(cr.sent["i"]) and len(s["ui"]["<"]) >= len(cr.peer.ui_sent)
+        if done and cr.linger_from is None:
+            cr.linger_from = s["symm"][">"]
+        if done and s["symm"][">"] >= max(LINGER_SYMM, cr.linger_from + LINGER_AFTER):
+            mon.stop_gap = True
+            return True
+        return False
+
+    opts = llcp_options(dev, None if (cell.get("none") or (side == "t" and cell.get("alt"))) else
+                        ("initiator" if side == "i" else "target"))
+    opts.update({"on-startup": on_startup, "on-connect": on_connect, "on-release": on_release})
+
+    def body():
+        try:
+            clf = fakenet.make_clf(net, "udp:localhost:%d" % ScriptedPeer.PORT)
+            res.clf[side] = clf
+            res.ret[side] = clf.connect(llcp=opts, terminate=term)
+        except BaseException as e:
+            res.exc[side] = e
+
+    with net.installed():
+        cr.peer = ScriptedPeer(net, cell[sside], sside)
+        th = net.spawn(body, "stack-" + side)
+        th.join(35.0)
+        if th.is_alive():
+            net.abort("scripted cell watchdog")
+            th.join(3.0)
+        if th.is_alive():
+            res.stuck.append(side)
+            res.inconclusive = res.inconclusive or "thread did not return"
+        elif res.clf[side] is not None:
+            try:
+                res.clf[side].close()
+            except Exception as e:
+                res.exc[side] = res.exc[side] or e
+    if net.aborted is not None:
+        res.inconclusive = res.inconclusive or "net aborted: %s" % net.aborted
+    res.connected[sside] = int(cr.peer.dep_seen)
+    cr.sent[sside] = list(cr.peer.ui_sent)
+    return cr
+
+
 # ------------------------------------------------------------------------------------------ verdicts
 def clamp(v, lo, hi):
     return min(max(lo, v), hi)
+
+
+RWT_UNIT = 4096 / 13.56E6
+LTO_MARGIN = 0.100       # s: a side must have stopped waiting for a silent peer that long after the peer's LTO
+
+
+def rwt_of(wt):
+    return RWT_UNIT * 2 ** min(wt, 14)
 
 
 def evaluate(cr):
@@ -964,6 +1740,11 @@ def evaluate(cr):
         return "inconclusive:harness callback failed " + exc_text(e)[-400:], V, obs
     if cr.adapter_error:
         return "inconclusive:adapter " + cr.adapter_error[-300:], V, obs
+    if cr.probe is not None and cr.probe.error:
+        return "inconclusive:mute probe error " + cr.probe.error[-300:], V, obs
+    if cr.peer is not None and cr.peer.error:
+        return "inconclusive:scripted peer failed " + cr.peer.error[-400:], V, obs
+    nf = [sd for sd in ("i", "t") if not cell[sd].get("scripted")]          # the sides that are nfcpy
     for side, role in (("i", "initiator"), ("t", "target")):
         e = res.exc[side]
         if e is not None:
@@ -984,39 +1765,73 @@ def evaluate(cr):
                did=ai["did"], pax_i=None if pi is None else (pi["miu"], pi["lto"], pi["wks"], pi["lsc"]),
                pax_t=None if pt is None else (pt["miu"], pt["lto"], pt["wks"], pt["lsc"]))
     if pi is None or pt is None:
+        if len(nf) < 2:
+            return "inconclusive:general bytes of the scripted exchange unreadable", V, obs
         V.append(("announce/general-bytes-unreadable", "general bytes of ATR_REQ/ATR_RES carry no readable LLCP "
                   "parameters: %r %r" % (bytes(ai["gb"]), bytes(at["gb"]))))
         return "partial", V, obs
+    if cr.peer is not None:
+        # the independent decoder and the script generator must agree about what the script announces
+        want = cell[cr.peer.side]["expect"]
+        got = pt if cr.peer.side == "t" else pi
+        if any(got[k] != want[k] for k in ("miu", "lto", "wks", "lsc")):
+            return "inconclusive:scripted general bytes read as %r, the script meant %r" % (got, want), V, obs
 
     # ---- announce: what goes on the air is what the options say
-    def ann(name, wire, opt, who):
+    n_skip = 0
+
+    def ann(name, wire, dev, who, lo=None, hi=None, key=None):
+        key = key or name
+        if key in dev.get("omit", ()):
+            if key not in DOCUMENTED:
+                return 1
+            opt, kind = DEFAULTS[key], "documented-default"
+        else:
+            opt, kind = dev[key], "option"
+        if lo is not None:
+            opt = clamp(opt, lo, hi)
         if wire != opt:
-            V.append(("announce/%s!=option/%s" % (name, who), "%s announced %s=%r on the air, option says %r"
-                      % (who, name, wire, opt)))
-    ann("lri", ai["lr"], clamp(di["lri"], 0, 3), "initiator")
-    ann("lrt", at["lr"], clamp(dt["lrt"], 0, 3), "target")
-    ann("wt", at["wt"], clamp(dt["rwt"], 0, 14), "target")
-    for who, p, dev in (("initiator", pi, di), ("target", pt, dt)):
-        ann("miu", p["miu"], dev["miu"], who)
-        ann("lto", p["lto"], dev["lto"], who)
-        ann("lsc", p["lsc"], dev["lsc"], who)
-        ann("wks", p["wks"], 0x0003 | (0x0010 if dev["snep"] else 0), who)
-    ann("did", ai["did"], cell.get("did") or 0, "initiator")
-    ann("nad", ai["nad"], int(cell.get("nad") is not None), "initiator")
-    want_brs = clamp(di["brs"], 0, 2)
+            V.append(("announce/%s!=%s/%s" % (name, kind, who), "%s announced %s=%r on the air, %s says %r"
+                      % (who, name, wire, kind.replace("-", " "), opt)))
+        return 0
+    if "i" in nf:
+        ann("lri", ai["lr"], di, "initiator", 0, 3)
+        ann("did", ai["did"], {"did": cell.get("did") or 0}, "initiator")
+        ann("nad", ai["nad"], {"nad": int(cell.get("nad") is not None)}, "initiator")
+    if "t" in nf:
+        ann("lrt", at["lr"], dt, "target", 0, 3)
+        ann("wt", at["wt"], dt, "target", 0, 14, key="rwt")
+    for sd, who, p, dev in (("i", "initiator", pi, di), ("t", "target", pt, dt)):
+        if sd in nf:
+            n_skip += ann("miu", p["miu"], dev, who)
+            ann("lto", p["lto"], dev, who)
+            n_skip += ann("lsc", p["lsc"], dev, who)
+            ann("wks", p["wks"], {"wks": 0x0003 | (0x0010 if dev["snep"] else 0)}, who)
+    obs["announce_not_judged"] = n_skip
     start_idx = BRTY.index(ai["brty"]) if ai["brty"] in BRTY else 0
-    if want_brs > start_idx:
-        if s["psl"] is None:
-            V.append(("announce/psl-missing", "brs=%d selected but no PSL_REQ on the air (link found at %s)"
-                      % (want_brs, ai["brty"])))
-        elif (s["psl"]["dsi"], s["psl"]["dri"]) != (want_brs, want_brs):
-            V.append(("announce/psl-brs!=option", "PSL_REQ BRS=%02X (DSI=%s DRI=%s) but option brs=%d"
-                      % (s["psl"]["brs"], s["psl"]["dsi"], s["psl"]["dri"], want_brs)))
-    exp_brty = BRTY[max(want_brs, start_idx)]
+    if "i" in nf:
+        want_brs = clamp(eff(di, "brs"), 0, 2)
+        if want_brs > start_idx:
+            if s["psl"] is None:
+                V.append(("announce/psl-missing", "brs=%d selected but no PSL_REQ on the air (link found at %s)"
+                          % (want_brs, ai["brty"])))
+            elif (s["psl"]["dsi"], s["psl"]["dri"]) != (want_brs, want_brs):
+                V.append(("announce/psl-brs!=option", "PSL_REQ BRS=%02X (DSI=%s DRI=%s) but option brs=%d"
+                          % (s["psl"]["brs"], s["psl"]["dsi"], s["psl"]["dri"], want_brs)))
+        if s["psl"] is not None:
+            obs["psl_fsl_checked"] = 1
+            if s["psl"]["fsl"] != ai["lr"]:
+                V.append(("announce/psl-fsl!=lri", "PSL_REQ FSL=%02X, ATR_REQ announced LRi=%d (option lri=%r)"
+                          % (s["psl"]["fsl"], ai["lr"], None if "lri" in di.get("omit", ()) else di["lri"])))
+        exp_brty = BRTY[max(want_brs, start_idx)]
+    else:
+        # a scripted initiator: the bit rate is the one its PSL_REQ selected (none: the one the link was found at)
+        want_brs = s["psl"]["dsi"] if s["psl_done"] else start_idx
+        exp_brty = BRTY[want_brs]
 
     # ---- take-over: each side works with what the peer announced
     n_take = 0
-    for side, role, peer in (("i", "initiator", pt), ("t", "target", pi)):
+    for side, role, peer, own in (("i", "initiator", pt, pi), ("t", "target", pi, pt)):
         sn = cr.snap.get(side)
         if sn is None:
             continue
@@ -1024,8 +1839,10 @@ def evaluate(cr):
                                ("receive LTO", "recv_lto", "llc/recv-lto!=peer-announced"),
                                ("WKS", "send_wks", "llc/wks!=peer-announced"),
                                ("LSC", "send_lsc", "llc/lsc!=peer-announced")):
-            wire = peer[{"send_miu": "miu", "recv_lto": "lto", "send_wks": "wks", "send_lsc": "lsc"}[key]]
+            k = {"send_miu": "miu", "recv_lto": "lto", "send_wks": "wks", "send_lsc": "lsc"}[key]
+            wire = peer[k]
             n_take += 1
+            obs["take_differs_" + k] = obs.get("take_differs_" + k, 0) + (wire != own[k])
             if sn[key] != wire:
                 V.append(("%s/%s" % (sig, role), "%s uses %s=%r, the peer announced %r" % (role, name, sn[key], wire)))
         if sn["brty"] != exp_brty:
@@ -1039,8 +1856,16 @@ def evaluate(cr):
             V.append(("dep/miu!=peer-lr/initiator", "Initiator payload limit %r, target announced LR=%d, header "
                       "CMD0 CMD1 PFB%s%s -> %d" % (cr.snap["i"]["mac_miu"], LR[at["lr"]], " DID" * (ai["did"] != 0),
                                                    " NAD" * ai["nad"], exp)))
-        wt = at["wt"] if at["wt"] < 15 else 14
-        obs["rwt_ok"] = abs(cr.snap["i"]["mac_rwt"] - 4096 / 13.56E6 * 2 ** wt) < 1e-9
+        if at["wt"] > 14:
+            obs["rwt_ok"] = None        # WT 15 is reserved: what the initiator makes of it is recorded, not judged
+            obs["wt15_rwt"] = cr.snap["i"]["mac_rwt"]
+        else:
+            n_take += 1
+            obs["rwt_ok"] = abs(cr.snap["i"]["mac_rwt"] - rwt_of(at["wt"])) < 1e-9
+            if not obs["rwt_ok"]:
+                V.append(("dep/rwt!=peer-wt/initiator", "Initiator waits %.6f s for a response, the target announced "
+                          "WT=%d in ATR_RES (TO=%02X): %.6f s" % (cr.snap["i"]["mac_rwt"], at["wt"], at["to"],
+                                                                  rwt_of(at["wt"]))))
     if "t" in cr.snap:
         n_take += 1
         exp = LR[ai["lr"]] - hdr - int(at["nad"])
@@ -1051,11 +1876,14 @@ def evaluate(cr):
     obs["takeover_checks"] = n_take
 
     # ---- air
-    for sig, text in mon.problems:
+    sent_by = {">": "i", "<": "t", None: None}
+    for sig, text, d in mon.problems:
+        if sent_by[d] is not None and sent_by[d] not in nf:
+            return "inconclusive:the scripted peer itself broke a limit: %s %s" % (sig, text), V, obs
         V.append((sig, text))
     for d, role in ((">", "initiator"), ("<", "target")):
         b = s["final_brty"].get(d)
-        if b is not None and b != exp_brty:
+        if b is not None and b != exp_brty and sent_by[d] in nf:
             V.append(("air/brty!=option/%s" % role, "%s sends data frames at %s, brs=%d selects %s"
                       % (role, b, want_brs, exp_brty)))
     if s["psl_done"] and res.connected["i"] and not res.connected["t"] and s["dep_seen"][">"] and not s["dep_seen"]["<"]:
@@ -1063,8 +1891,6 @@ def evaluate(cr):
                   "delivered but the target never answered nor got activated" % (s["psl"]["brs"], s["final_brty"].get(">"))))
     # ---- local enforcement of the announced MIU
     for side, role, peer in (("i", "initiator", pt), ("t", "target", pi)):
-        if side in cr.snap and peer["miu"] + 1 not in cr.refused[side]:
-            pass            # accepted: it went on the air and the air monitor judged it
         if side in cr.sendto_error:
             V.append(("llc/sendto-error/%s" % role, "sendto within the announced MIU failed: %s" % cr.sendto_error[side]))
         if side in cr.snap and any(n <= peer["miu"] for n in cr.refused[side]):
@@ -1098,54 +1924,174 @@ def evaluate(cr):
         obs["dlc_complete"] = (len(cr.dlc) == 2 and all(st["phase"] == "closed" for st in cr.dlc.values()))
         obs["dlc_errors"] = sorted("%s:%s:%s" % (st["role"], st["phase"], st["error"]) for st in cr.dlc.values()
                                    if st["error"])
+        # what one endpoint handed to send() is what the other endpoint got from recv(), both directions, and an
+        # I PDU of exactly the connection MIU was among it: only then the cell counts as non-trivial
+        if obs["dlc_complete"]:
+            ends = {st["role"]: st for st in cr.dlc.values()}
+            c, a = ends.get("connector"), ends.get("acceptor")
+            obs["dlc_rcvd_eq_sent"] = (c is not None and a is not None and a["rcvd"] == c["sent"]
+                                       and c["rcvd"] == a["sent"])
+            obs["dlc_exact"] = (c is not None and a is not None and c["limit"] in a["rcvd"] and a["limit"] in c["rcvd"])
     # ---- LTO guarantee on the logical clock
     if CHECK_LTO_GUARANTEE:
         for side, role, own in (("i", "initiator", pi), ("t", "target", pt)):
+            if side not in nf:
+                continue
             gap_ms = s["max_gap"][side] * 1000.0
             obs["gap_" + side] = gap_ms
             if gap_ms > own["lto"] + 1e-6:
                 V.append(("lto/own-idle-delay>announced-lto/%s" % role,
                           "%s stayed silent %.1f ms (its own sleeps/time-outs only) after receiving a PDU, it announced "
                           "LTO=%d ms" % (role, gap_ms, own["lto"])))
+    # ---- behavioural link time-out: when does a side give up on a peer that fell silent
+    if cr.probe is not None:
+        evaluate_mute(cr, s, pi, pt, V, obs)
     # ---- side observation (not in the property statement): the target answers later than the RWT it announced
-    obs["rwt_exceeded"] = s["max_gap"]["t"] > 4096 / 13.56E6 * 2 ** min(at["wt"], 14) + 1e-9
+    obs["rwt_exceeded"] = s["max_gap"]["t"] > rwt_of(at["wt"]) + 1e-9
     # ---- traffic integrity (harness sanity, not a verdict)
     obs["ui_ok"] = (s["ui"][">"][:len(cr.sent["i"])] == cr.sent["i"][:len(s["ui"][">"])]
                     and s["ui"]["<"][:len(cr.sent["t"])] == cr.sent["t"][:len(s["ui"]["<"])])
     obs["ui_complete"] = len(s["ui"][">"]) >= len(cr.sent["i"]) and len(s["ui"]["<"]) >= len(cr.sent["t"])
     obs["max_ui"] = max([len(x) for x in s["ui"][">"] + s["ui"]["<"]] or [0])
-    obs["exact_miu"] = sum(1 for x in s["ui"][">"] if len(x) == pt["miu"]) + sum(1 for x in s["ui"]["<"] if len(x) == pi["miu"])
+    obs["exact_i"] = sum(1 for x in s["ui"][">"] if len(x) == pt["miu"])
+    obs["exact_t"] = sum(1 for x in s["ui"]["<"] if len(x) == pi["miu"])
+    obs["exact_miu"] = obs["exact_i"] + obs["exact_t"]
     obs["final_brty"] = exp_brty
     if not res.both_connected:
+        # ATR_REQ and ATR_RES went over the air (both readable), the options are valid, and still one side never got
+        # to its on-connect callback
+        if V:
+            return "partial", V, obs
+        if res.inconclusive:
+            return "inconclusive:" + str(res.inconclusive), V, obs
+        if obs["rwt_exceeded"]:
+            obs["partial_explained"] = "target slower than the RWT it announced"
+            return "partial", V, obs
+        for side, role in (("i", "initiator"), ("t", "target")):
+            if not res.connected[side] and side in nf:
+                V.append(("activate/failed-for-valid-options/%s" % role,
+                          "ATR_REQ / ATR_RES were exchanged (LRi=%d LRt=%d WT=%d, link found at %s) but the %s never "
+                          "reached on-connect" % (ai["lr"], at["lr"], at["wt"], ai["brty"], role)))
         return "partial", V, obs
     if res.inconclusive:
         return "inconclusive:" + str(res.inconclusive), V, obs
+    if mon.n_i_noconn and not V:
+        return ("inconclusive:%d I PDUs on the air without a CONNECT/CC pair seen before (not judged)" % mon.n_i_noconn,
+                V, obs)
     return "ok", V, obs
 
 
+def evaluate_mute(cr, s, pi, pt, V, obs):
+    """one side's frames were dropped from probe.muted_at on.  For every side that then hears nothing:
+         t0      the moment it sent the PDU that is never answered (the peer "received" it then: the LTO the peer
+                 announced is the peer's promise to answer within that time)
+         gave up the logical time of its first driver operation after its wait for the answer ended (initiator:
+                 normally the DSL_REQ / RLS_REQ frame; target: whatever it does next), else its on-release callback
+       clauses   gave up - t0 >= LTO announced by the peer (an initiator may also run the NFC-DEP recovery, which ends
+                 no earlier than one response waiting time RWT announced by the target: min(LTO, RWT))
+                 gave up - t0 <= LTO announced by the peer + LTO_MARGIN"""
+    pr = cr.probe
+    obs["mute"] = "not-reached"
+    if pr.muted_at is None:
+        return
+    first_drop = next((k for k, fr in enumerate(pr.frames) if fr[2]), None)
+    if first_drop is None:
+        return
+    t_drop = pr.frames[first_drop][0]
+    side_thread = {sd: th for th, sd in cr.thread_side.items()}
+    observers = []
+    if pr.side == "t":                  # the target's frames vanish: the initiator sent its request just before
+        reqs = [fr[0] for fr in pr.frames[:first_drop] if fr[1] == ">"]
+        if not reqs:
+            obs["mute"] = "no-request-before-the-first-dropped-response"
+            return
+        observers.append(("i", max(reqs)))
+    else:                               # the initiator's frames vanish: its first unanswered request is the first
+        observers.append(("i", t_drop))            # dropped frame; the target sent its last response just before
+        before = [fr[0] for fr in pr.frames[:first_drop] if fr[1] == "<"]
+        observers.append(("t", max(before) if before else pr.muted_at))
+    obs["mute"] = "measured"
+    obs["mute_obs"] = []
+    rwt = rwt_of(s["atr_res"]["wt"])
+    for side, t0 in observers:
+        role = "initiator" if side == "i" else "target"
+        peer_lto = (pt if side == "i" else pi)["lto"] / 1000.0
+        th = side_thread.get(side)
+        t_end = pr.gave_up_at(th) if th is not None else None
+        how = "driver"
+        if t_end is None:
+            t_end, how = cr.released_at.get(side), "on-release"
+        if t_end is None:
+            obs["mute"] = "no-release-seen"
+            continue
+        lower = peer_lto if side == "t" else min(peer_lto, rwt)
+        waited = t_end - t0
+        obs["mute_obs"].append((side, round(waited, 6), peer_lto, how, lower == peer_lto))
+        if waited < lower - 1e-9:
+            V.append(("lto/gave-up-before-peer-lto/%s" % role,
+                      "the %s stopped waiting for its silent peer after %.1f ms; the peer announced LTO=%d ms%s"
+                      % (role, waited * 1e3, peer_lto * 1e3,
+                         "" if side == "t" else " (response waiting time announced by the target: %.1f ms)" % (rwt * 1e3))))
+        if waited > peer_lto + LTO_MARGIN + 1e-9:
+            V.append(("lto/still-waiting-after-peer-lto/%s" % role,
+                      "the %s still waited for its silent peer %.1f ms after the last PDU; the peer announced "
+                      "LTO=%d ms (allowed: + %d ms)" % (role, waited * 1e3, peer_lto * 1e3, LTO_MARGIN * 1e3)))
+
+
 def cell_key(cell):
-    return [cell["swap"], cell.get("alt"), cell.get("did"), cell.get("nad"), cell["tseed"],
-            sorted(cell["i"].items(), key=str), sorted(cell["t"].items(), key=str)]
+    key = [cell["swap"], cell.get("alt"), cell.get("did"), cell.get("nad"), cell["tseed"],
+           sorted(cell["i"].items(), key=str), sorted(cell["t"].items(), key=str)]
+    for k in ("none", "mute"):
+        if cell.get(k):
+            key.append([k, sorted(cell[k].items()) if isinstance(cell[k], dict) else cell[k]])
+    return key
 
 
 def do_cell(cell, R, record=True):
-    cr = run_cell(cell)
+    scripted = any(cell[sd].get("scripted") for sd in ("i", "t"))
+    cr = run_scripted_cell(cell) if scripted else run_cell(cell)
     cell = cr.cell                  # with the derived extra traffic plan ("x"), so that a witness replays exactly
     status, V, obs = evaluate(cr)
     mon = cr.mon
-    nontrivial = status == "ok"
-    R.case(cell_key(cell), nontrivial=nontrivial)
+    kind = "scripted" if scripted else ("mute" if cr.mute else "pair")
+    # non-trivial: both sides connected, every planned UI got through with one of exactly the peer's MIU in each
+    # direction that had traffic, and (pair cells) the data link connection carried exactly-MIU I PDUs both ways
+    complete = status == "ok" and bool(obs.get("ui_complete")) and obs.get("exact_miu", 0) > 0
+    if kind == "pair" and cr.x is not None:
+        complete = complete and bool(obs.get("dlc_complete")) and bool(obs.get("dlc_exact"))
+    if kind == "mute":
+        complete = complete and obs.get("mute") == "measured"
+    R.case(cell_key(cell), nontrivial=complete)
     R.count("cells")
+    R.count("cells_" + kind)
     R.count("cells_" + status.split(":")[0])
+    if complete:
+        R.count("cells_nontrivial_traffic_complete")
     if cr.res.both_connected:
         R.count("cells_both_connected")
     if cell.get("did") is not None or cell.get("nad") is not None:
         R.count("cells_did_nad")
+    if cell.get("none"):
+        R.count("cells_role_given_on_neither_device")
+        R.count("role_gate_expired", int(cr.gate_expired))
+    for sd in ("i", "t"):
+        if cell[sd].get("omit"):
+            R.count("devices_with_omitted_options")
+            R.seen("omitted_option_sets", ",".join(cell[sd]["omit"]))
+    R.count("announce_not_judged_undocumented_default", obs.get("announce_not_judged", 0))
     if status.startswith("inconclusive"):
         R.inconc("cell %r: %s" % (cell, status))
+    if obs.get("partial_explained"):
+        R.count("cells_partial_explained")
+        R.seen("partial_explained_by", obs["partial_explained"])
     for sig, what in V:
         R.violation(sig, what, {"cell": cell})
     R.count("takeover_checks", obs.get("takeover_checks", 0))
+    for k in ("miu", "lto", "wks", "lsc"):
+        R.count("takeover_%s_differs_from_own" % k, obs.get("take_differs_" + k, 0))
+    R.count("psl_fsl_checked", obs.get("psl_fsl_checked", 0))
+    R.count("lto_gaps_measured", mon.n_gaps)
+    R.count("atn_requests_judged", mon.n_atn)
     R.count("dep_frames_checked", mon.n_dep)
     R.count("dep_chained_frames", mon.n_chained)
     R.count("llc_pdus_checked", mon.n_llc)
@@ -1187,6 +2133,15 @@ def do_cell(cell, R, record=True):
         R.count("helper_reaction_waits_expired", cr.helper_waits_expired)
         if obs.get("dlc_complete"):
             R.count("cells_dlc_traffic_complete")
+            if obs.get("dlc_rcvd_eq_sent"):
+                R.count("cells_dlc_rcvd_equals_sent")
+            else:
+                # delivery itself is another property (C05); here it only says the traffic was not what was planned
+                R.count("cells_dlc_rcvd_differs_from_sent")
+                R.inconc("data link connection: what recv() returned differs from what send() accepted: %r %r"
+                         % (cell, cr.dlc))
+            if obs.get("dlc_exact"):
+                R.count("cells_dlc_exact_miu_both_ways")
         if obs.get("snl_complete"):
             R.count("cells_all_names_answered")
         for e in obs.get("dlc_errors", []):
@@ -1201,6 +2156,26 @@ def do_cell(cell, R, record=True):
                 R.sample({"incomplete": cell, "dlc": cr.dlc,
                           "batch": {k: {kk: vv for kk, vv in b.items() if kk != "names"} for k, b in cr.batch.items()},
                           "resolved": {sd: sorted(map(repr, cr.resolved[sd].values())) for sd in cr.resolved}})
+    if cr.probe is not None:
+        R.seen("mute_outcomes", obs.get("mute"))
+        if obs.get("mute") != "measured" and not V and not obs.get("rwt_exceeded") and status == "ok":
+            R.inconc("link time-out cell: the silence was not reached / no release seen (%s): %r" % (obs.get("mute"), cell))
+        for side, waited, lto, how, by_lto in obs.get("mute_obs", []):
+            R.count("lto_release_measured_" + ("initiator" if side == "i" else "target"))
+            R.count("lto_release_seen_at_" + how)
+            if by_lto:
+                R.count("lto_release_lower_bound_is_the_lto")
+            R.seen("lto_release(side,peer_lto_ms,waited_ms)", [side, int(lto * 1000), round(waited * 1000, 1)])
+    if cr.peer is not None:
+        pr = cr.peer
+        R.count("scripted_%s_cells" % pr.role)
+        R.count("scripted_ui_received", len(pr.ui_rcvd))
+        R.count("scripted_ui_of_exactly_miu_received", sum(1 for n in pr.ui_rcvd if n == pr.expect["miu"]))
+        R.seen("scripted_variants", cell[pr.side]["name"])
+        R.seen("scripted_link_found_at", "%s/%s" % (pr.role, pr.sc["brty"]))
+        R.seen("scripted_pax(miu,lto,wks,lsc)", [pr.expect[k] for k in ("miu", "lto", "wks", "lsc")])
+        if "wt15_rwt" in obs:
+            R.seen("rwt_used_for_reserved_wt15", round(obs["wt15_rwt"], 6))
     s = mon.final()
     if s is not None:
         R.count("ui_on_air", len(s["ui"][">"]) + len(s["ui"]["<"]))
@@ -1234,6 +2209,11 @@ def do_cell(cell, R, record=True):
                                                      obs.get("did")])
         R.seen("pax_on_air(miu,lto,wks,lsc)", obs.get("pax_i"))
         R.seen("pax_on_air(miu,lto,wks,lsc)", obs.get("pax_t"))
+        if obs.get("pax_i") and obs.get("pax_t"):
+            R.seen("lsc_pairs_on_air(i,t)", [obs["pax_i"][3], obs["pax_t"][3]])
+            R.seen("lto_pairs_on_air(i,t)", [obs["pax_i"][1], obs["pax_t"][1]])
+            R.seen("wks_on_air", obs["pax_i"][2])
+            R.seen("wks_on_air", obs["pax_t"][2])
         if status == "ok":
             R.seen("data_bit_rates", obs.get("final_brty"))
     for (d, lr), n in mon.max_td.items():
@@ -1256,31 +2236,50 @@ def run(desc, R, rng):
     sys.setswitchinterval(0.0005)
     seed = int(desc.get("seed", 0))
     part, parts = desc["part"], desc["parts"]
+    crng = random.Random(seed * 104729 + part)
+    # a shard that is killed by its watchdog loses what it has recorded (also violations): stop in time instead and
+    # say so.  Wall time only ever makes the run INCONCLUSIVE.
+    t_start = _time.time()
+    budget = 0.8 * desc.get("timeout", 900)
+    todo = []
     if desc["mode"] == "quick":
         flats, grng = quick_cells(seed)
         mine = [f for k, f in enumerate(flats) if k % parts == part]
-        crng = random.Random(seed * 104729 + part)
         mine += [random_flat(crng) for _ in range(desc.get("extra", 0))]
-        for k, f in enumerate(mine):
-            do_cell(to_cell(f, crng), R, record=(k < 2))
-        R.exhaustive = False
+        # the cheap special kinds first, then the pair cells
+        todo += [(c, False) for k, c in enumerate(scripted_cells(seed, dense=False)) if k % parts == part]
+        todo += [(to_cell(f, crng), k < 2) for k, f in enumerate(mine)]
     else:
-        crng = random.Random(seed * 104729 + part)
+        todo += [(to_cell(f, crng), False) for k, f in enumerate(mute_flats(random.Random(seed * 31 + 5), dense=True))
+                 if k % parts == part]
+        todo += [(c, False) for k, c in enumerate(scripted_cells(seed, dense=True)) if k % parts == part]
         n = 0
-        clean = True
         for index in range(part, GRID, parts):
-            st, V = do_cell(to_cell(full_grid_cell(index, crng), crng), R, record=(n < 2))
-            clean = clean and st == "ok"
+            todo.append((index, n < 2))
             n += 1
-        for lri in range(4):
-            if (lri % parts) == part % 4:
-                for did, nad in ((1, None), (14, None), (None, 7), (3, 9)):
-                    for miu_i in (248, 2175):
-                        f = random_flat(crng)
-                        f.update(lri=lri, did=did, nad=nad, miu_i=miu_i, lto_i=500, lto_t=500)
-                        do_cell(to_cell(f, crng), R, record=False)
-        R.count("grid_cells", n)
-        R.exhaustive = clean
+        R.count("grid_cells_planned", n)
+    for k, (c, rec) in enumerate(todo):
+        if _time.time() - t_start > budget:
+            R.count("cells_not_run_time_budget", len(todo) - k)
+            R.inconc("shard %d stopped after %d of %d cells: %.0f s of its %d s used (loaded machine, or cells made "
+                     "slow by what is being tested)" % (part, k, len(todo), _time.time() - t_start,
+                                                        desc.get("timeout", 900)))
+            break
+        if isinstance(c, int):
+            c = to_cell(full_grid_cell(c), crng)
+            R.count("grid_cells")
+        do_cell(c, R, record=rec)
+    # the complete product of the quantifier (.. x lto x agf x lsc on both devices) has about 10^8 cells: the grid
+    # of the thorough tier is complete over swap x brs x lri x lrt x rwt x miu_i x miu_t only, the other parameters
+    # rotate (see rotation); the evidence therefore never claims exhaustiveness
+    R.exhaustive = False
+    # cells that lost their traffic because nfcpy's own pacing (1 ms, 50 ms when idle) is slower than the response
+    # waiting time the target announced (rwt 0 and 1, partly up to 7) are counted; they must stay a minority
+    n_cells = R.counters.get("cells", 0)
+    lost = R.counters.get("cells_link_lost_target_slower_than_its_rwt", 0)
+    if n_cells >= 20 and lost * 4 > n_cells:
+        R.inconc("%d of %d cells lost their traffic to nfcpy's pacing against a small RWT (bound: a quarter)"
+                 % (lost, n_cells))
     faulthandler.cancel_dump_traceback_later()
 
 
